@@ -1,5 +1,5 @@
 //! Demonstrations that measure allocations (run with `-- --test-threads=1`: the allocation counters are global).
-//! f9_* demonstrates a KNOWN, unrepaired finding and FAILS on the current tree by design; f19_* fails on the original tree and passes since its fix.
+//! f9_* and f35_* demonstrate KNOWN, unrepaired findings and FAIL on the current tree by design; f19_* fails on the original tree and passes since its fix.
 mod common;
 use common::*;
 use std::alloc::{GlobalAlloc, Layout, System};
@@ -86,4 +86,25 @@ fn f19_unfinished_fdt_instances_are_never_released() {
     r.cleanup(SystemTime::now());
     let held = LIVE.load(Ordering::SeqCst) - live0;
     assert!(held < 512 * 1024, "after the timeouts and cleanup() the receiver still holds {} kB for 2000 FDT instances that never completed", held / 1024);
+}
+
+// ---- F35 (C01/C03, known finding): a `no-cache` object sent with FEC parity is completed, then the parity packets that follow in the same
+// transfer re-create the object (it is not entered in objects_completed), open a second writer for it and end it in error ------------
+#[test]
+fn f35_no_cache_object_followed_by_its_own_parity_packets() {
+    let oti = flute::core::Oti::new_reed_solomon_rs28(64, 4, 2).unwrap();
+    let mut s = sender_with(&oti, &Default::default());
+    let data: Vec<u8> = (0..1000u32).map(|i| (i % 251) as u8).collect();
+    let cfg = flute::sender::TransferConfig { cache_control: Some(flute::sender::CacheControl::NoCache), ..Default::default() };
+    s.add_object(0, obj(data.clone(), "file:///no-cache", cfg)).unwrap();
+    let now = SystemTime::now();
+    s.publish(now).unwrap();
+    let (mut r, w) = receiver();
+    for p in all_packets(&mut s, now) {
+        r.push(&endpoint(), &p, now).unwrap();
+    }
+    let objs = w.objects.borrow();
+    let complete = objs.iter().filter(|o| o.borrow().complete).count();
+    let failed = objs.iter().filter(|o| o.borrow().error).count();
+    assert_eq!((objs.len(), complete, failed), (1, 1, 0), "(writers created, complete, in error)");
 }
